@@ -87,7 +87,7 @@ example : ∃ d : Gumbel ℝ, 0 < d.f_scale := ⟨⟨0, 1⟩, by norm_num⟩
 /-- Pareto: cdf(median) = 1/2 -/
 theorem pareto_cdf_median (d : Pareto ℝ) (hs : 0 < d.f_scale) (ha : 0 < d.f_shape) :
     Pareto.cdf d (Pareto.median d) = 1 / 2 := by
-  unfold Pareto.cdf Pareto.median
+  unfold Pareto.cdf Pareto.median pow2Lit
   rfun_norm
   have hf : (1:ℝ) ≤ (2.0:ℝ) ^ ((1.0:ℝ) / d.f_shape) := by
     apply Real.one_le_rpow (by norm_num)
